@@ -42,9 +42,9 @@ def parse_label(lab):
     m = re.match(r"(New|Open|Enter|Read|Mutate)\((\d+)\)", lab)
     if m:
         return dict(op=m.group(1).lower(), p=int(m.group(2)))
-    m = re.match(r"Copy\((\d+), (\d+)\)", lab)
+    m = re.match(r"(M?)Copy\((\d+),\s*(\d+)\)", lab)
     if m:
-        return dict(op="copy", p=int(m.group(1)), q=int(m.group(2)))
+        return dict(op="mcopy" if m.group(1) else "copy", p=int(m.group(2)), q=int(m.group(3)))
     m = re.match(r'Do\(\[op \|-> "(\w+)", p \|-> (\d+)(?:, q \|-> (\d+))?\]\)', lab)
     if m:
         d = dict(op=m.group(1), p=int(m.group(2)))
@@ -78,6 +78,9 @@ class PathWorld:
         tdf_bytes = open(seed_path, "rb").read()
         os.unlink(seed_path)
         junk = b"this is not a TDF file " + bytes(self.rng.randrange(256) for _ in range(50))
+        if self.rng.random() < 0.5:
+            # a TDF file whose signature is damaged: everything behind it still parses
+            junk = bytes([tdf_bytes[0] ^ 0x40]) + tdf_bytes[1:]
         for i, k in enumerate(kinds, start=1):
             p = self.paths[i]
             if os.path.exists(p):
@@ -132,8 +135,20 @@ class PathWorld:
                 elif op == "enter":
                     t = Tdf(p)
                     try:
-                        with t as f:
-                            f.entries
+                        try:
+                            with t as f:
+                                f.entries
+                        except Exception:
+                            # refused: the same object must not hand out data afterwards either
+                            leaked = []
+                            for probe in (lambda: len(t), lambda: t.has_events, lambda: t.get_block(0), lambda: t.entries):
+                                try:
+                                    probe()
+                                    leaked.append(True)
+                                except Exception:  # noqa: BLE001
+                                    pass
+                            if not leaked:
+                                raise
                     finally:
                         h = getattr(t, "handler", None)
                         if h is not None and not h.closed:
@@ -146,6 +161,12 @@ class PathWorld:
                         h = getattr(t, "handler", None)
                         if h is not None and not h.closed:
                             h.close()
+                elif op == "mcopy":
+                    self.counter += 1
+                    blk = blocks.make_block(16, 1 + self.counter % 3, 1000 + self.counter, 1500000000, 1500000100)
+                    with Tdf(p).allow_write() as f:
+                        f.events = blk
+                        f.copy(self.paths[c["q"]])
                 elif op == "mutate":
                     self.counter += 1
                     blk = blocks.make_block(16, 1 + self.counter % 3, 1000 + self.counter, 1500000000, 1500000100)
